@@ -106,6 +106,10 @@ func (c *clusterT) newConfig(fixedPort int) *config.Config {
 	}
 	eng := config.NewEngine()
 	eng.Config = map[string]interface{}{"tableSize": uint64(optInt(o, "tsize", 1<<20))}
+	if ti := optInt(o, "tidle_ms", 0); ti > 0 {
+		// how long a recycled (emptied) table is kept before its memory is given back
+		eng.Config["maxIdleTableTimeout"] = time.Duration(ti) * time.Millisecond
+	}
 	cfg.DMaps.Engine = eng
 	if name, ok := o["cdm"]; ok {
 		// a DMap with its own configuration: each setting as above unless a c<setting> option is given
@@ -125,6 +129,9 @@ func (c *clusterT) newConfig(fixedPort int) *config.Config {
 		}
 		if pick("clru", optInt(o, "lru", 0)) == 1 {
 			custom.EvictionPolicy = config.LRUEviction
+		}
+		if optInt(o, "cnoeng", 0) == 1 {
+			custom.Engine = nil // a custom section that tunes TTL / eviction only: the storage engine is the global one
 		}
 		cfg.DMaps.Custom = map[string]config.DMap{name: custom}
 	}
